@@ -3,7 +3,6 @@
 package memory
 
 import (
-	"bytes"
 	"fmt"
 
 	"github.com/tink-crypto/tink-go/v2/internal/simhook"
@@ -48,7 +47,7 @@ func watchYield(site int) {
 		return
 	}
 	for _, b := range w.hot {
-		if !bytes.Equal(b.full, b.want) {
+		if !b.Intact() {
 			region, off := b.Check()
 			w.transient = fmt.Sprintf("the %s buffer passed to %s (len %d, spare %d) differs in its %s region at offset %d while the call is in progress (yield site %d)", b.Role, b.Op, b.n, b.spare, region, off, site)
 			w.transientRegion = region
